@@ -489,10 +489,26 @@ func GenTraffic(g *Rand, tc TrafficCfg) []TOp {
 				if g.Bool() {
 					op.Opts["exclude_me"] = false
 				}
+				if g.Chance(1, 5) {
+					// receiver filters: the broker looks at every subscriber's session details
+					switch g.Intn(4) {
+					case 0:
+						op.Opts["exclude"] = wamp.List{424242}
+					case 1:
+						op.Opts["eligible_authrole"] = wamp.List{"anonymous", "trusted"}
+					case 2:
+						op.Opts["exclude_authid"] = wamp.List{"nobody"}
+					case 3:
+						op.Opts["eligible"] = wamp.List{}
+					}
+				}
 			case tReg:
 				op.URI = PickOf(g, trafficProcs)
 				if op.URI == "p.shared" {
 					op.Invoke = g.Pick("roundrobin", "first", "last", "random")
+				}
+				if g.Chance(1, 4) {
+					op.Opts = wamp.Dict{"disclose_caller": true}
 				}
 			case tCall, tProgCall:
 				if g.Chance(2, 3) {
